@@ -512,7 +512,7 @@ class Machine(TreeEval):
             b0 = e[1]
             while b0[0] in ("deref", "ref"):
                 b0 = b0[1]
-            if b0[0] in ("alloc", "named"):
+            if b0[0] in ("alloc", "named", "phi"):
                 return self.ev(("ld", 0, e))
         if k == "ld":
             place = e[2]
@@ -529,8 +529,17 @@ class Machine(TreeEval):
                 return h[min(e[1], len(h)) - 1] if isinstance(e[1], int) else h[-1]
             if place[0] in ("index", "tbl"):
                 b0 = place[1]
-                while b0[0] in ("deref", "ref"):
-                    b0 = b0[1]
+                for _ in range(8):
+                    while b0[0] in ("deref", "ref"):
+                        b0 = b0[1]
+                    if b0[0] != "phi":
+                        break
+                    # a table chosen by an earlier branch (`let t = match c { A => &T1, B => &T2 }`)
+                    lab = self.choices.get(b0[1])
+                    alt = [v_ for l_, v_ in b0[3] if l_ == lab]
+                    if not alt:
+                        break
+                    b0 = alt[0]
                 if b0[0] == "named":
                     nb = self._named_bytes(b0[1])
                     if nb is not None:
